@@ -194,7 +194,7 @@ func TestCheck(t *testing.T) {
 			run.Count("full_state_comparisons", 1)
 		}
 		var real []string
-		for _, p := range probs {
+		for _, p := range mon.Quarantine(probs) {
 			if strings.HasPrefix(p, "INCONCLUSIVE|") {
 				run.Inconclusive(caseID + ": " + p[13:])
 				continue
